@@ -8,6 +8,7 @@ import (
 
 	remoteexecution "github.com/bazelbuild/remote-apis/build/bazel/remote/execution/v2"
 	rt "github.com/buildbarn/bb-remote-execution/internal/verifrt"
+	scheduler_invocation "github.com/buildbarn/bb-remote-execution/pkg/scheduler/invocation"
 )
 
 type vsWalk struct {
@@ -214,6 +215,20 @@ func (r *vsRig) walk() {
 	// cleanup heap
 	for k, e := range bq.cleanupQueue.heap {
 		rt.Assert(*e.key == cleanupKey(k+1), "cleanup keys point back at their heap entries")
+		rt.Assert(e.timestamp.After(bq.now), "no cleanup is overdue once a call has taken the lock")
+	}
+	for name, o := range bq.operationsNameMap {
+		if at, ok := r.opLastDetach[name]; ok && o.waiters == 0 && o.cleanupKey.isActive() && !o.task.mayExistWithoutWaiters {
+			rt.Assert(bq.cleanupQueue.heap[o.cleanupKey-1].timestamp.Equal(at.Add(vsNoWaitersTimeout)), "an operation nobody waits on is removed exactly the no-waiter timeout after its last client left")
+		}
+	}
+	for _, w := range r.workers {
+		if ws := r.workerState(w); ws != nil && !w.inFlight && w.everReturned {
+			rt.Assert(ws.cleanupKey.isActive() && bq.cleanupQueue.heap[ws.cleanupKey-1].timestamp.Equal(w.lastReturn.Add(vsWorkerTimeout)), "a worker is removed exactly the worker timeout after its last Synchronize returned")
+		}
+		if w.everReturned && !w.inFlight && !r.clock.now.Before(w.lastReturn.Add(vsWorkerTimeout)) && bq.now.Equal(r.clock.now) {
+			rt.Assert(r.workerState(w) == nil, "a worker that stopped synchronizing is gone after the worker timeout")
+		}
 	}
 	rt.Assert(vsHeapOK(&bq.cleanupQueue.heap), "the cleanup heap is ordered by time")
 
@@ -229,6 +244,26 @@ func (r *vsRig) walk() {
 		} else if !ws.isDrained(scq, w.id) {
 			rt.Assert(!scq.rootInvocation.isQueued(), "no task stays queued while an undrained worker of its queue is waiting")
 			rt.Assert(ws.wakeup != nil, "an undrained waiting worker is parked where new tasks find it")
+		}
+	}
+
+	// every attached client has been told about a completed task (C02)
+	for _, s := range r.streams {
+		if s.task != nil && s.task.executeResponse != nil && s.ctx.err == nil && s.msgs > 0 {
+			rt.Assert(s.done && s.returned, "once a task has completed every attached client receives the final message")
+		}
+	}
+
+	// background learning (C07): uncacheable and bounded
+	for _, scq := range bq.sizeClassQueues {
+		for key, c := range scq.rootInvocation.children {
+			if len(scheduler_invocation.BackgroundLearningKeys) == 1 && key == scheduler_invocation.BackgroundLearningKeys[0] {
+				rt.Assert(len(c.queuedOperations) <= r.maxBackground, "the backlog of background learning operations is bounded by the configured maximum")
+				for _, o := range c.queuedOperations {
+					rt.Assert(o.task.desiredState.Action.GetDoNotCache() && o.mayExistWithoutWaiters, "background learning runs are uncacheable and need no client")
+					rt.Cover("background:queued")
+				}
+			}
 		}
 	}
 
